@@ -1326,14 +1326,17 @@ static int setup_skb(void)
 
 /* Fill the stack region the next call will use with 0xA5, so that an uninitialised slot of the kernel program
  * (e.g. struct padding of a key built on the stack) is visibly garbage instead of accidentally zero. */
-static __attribute__((noinline)) void poison_stack(void)
-{
-	volatile uint8_t junk[24 * 1024];
-	uint8_t *p = (uint8_t *)junk;
-	asm volatile("" : "+r"(p));
-	memset(p, 0xA5, sizeof(junk));
-	asm volatile("" : : "r"(p) : "memory");
-}
+#define POISON_FN(name, bytes)                                   \
+	static __attribute__((noinline)) void name(void)         \
+	{                                                        \
+		volatile uint8_t junk[bytes];                    \
+		uint8_t *p = (uint8_t *)junk;                    \
+		asm volatile("" : "+r"(p));                     \
+		memset(p, 0xA5, bytes);                          \
+		asm volatile("" : : "r"(p) : "memory");        \
+	}
+POISON_FN(poison_stack, 24 * 1024)      /* whole TC / cgroup programs */
+POISON_FN(poison_stack_small, 3 * 1024) /* route(): works in a per-CPU scratch map, shallow stack; called 10^5/s */
 
 static void handle(uint8_t op)
 {
@@ -1554,7 +1557,7 @@ static void handle(uint8_t op)
 			memcpy(sa, p + 52, 16);
 			memcpy(da, p + 68, 16);
 			memcpy(mac, p + 84, 16);
-			poison_stack();
+			poison_stack_small();
 			__s64 r = route(flag, &l4, sa, da, mac);
 			p_u64((uint64_t)r);
 		}
